@@ -141,6 +141,11 @@ class GraphicalModel:
         kopy = self.__class__()
         # Copy the source net
         kopy.source_net = nx.DiGraph(self.source_net)
+        # nx.DiGraph copies the attribute dicts only one level deep, give the copy its
+        # own node states
+        for name in kopy.source_net.nodes():
+            data = kopy.source_net.nodes[name]
+            data['attr_dict'] = dict(data['attr_dict'])
         return kopy
 
     def __copy__(self, *args, **kwargs):
